@@ -790,11 +790,14 @@ func (cs *ContractSet) parseContractText(pkgPath, file string, lines []string, l
 			case "opt:":
 				k, v, _ := strings.Cut(rest, "=")
 				cur.Opts[strings.TrimSpace(k)] = strings.TrimSpace(v)
-			case "requires":
+			case "requires", "assume-requires":
+				// assume-requires: an environment / resource bound that callers are not asked to prove
+				// (assumed on entry, listed in the trusted base)
 				c, err := parseClause(rest, file, line)
 				if err != nil {
 					return err
 				}
+				c.Assumed = kw == "assume-requires"
 				cur.Requires = append(cur.Requires, c)
 			case "ensures", "assume-ensures":
 				c, err := parseClause(rest, file, line)
